@@ -73,6 +73,7 @@ func propC02umemo(a *Analysis, r *Registry, b *B) {
 					return
 				}
 				b.Eq(rB, name+"/a[k]", a.W.InstrPos(st), fc.Val(st.Val), e2, "a[k-1]+t[k-2]+t[k-1]")
+				b.FullScan("C-scan coverage", name+"/a[k]/every-k", a.W.InstrPos(st), fc, k.Sub(S.Int(2)), e2.MustParse("len(t)-1"))
 			})
 		}
 		if n != 2 {
@@ -141,6 +142,66 @@ func propC02umemo(a *Analysis, r *Registry, b *B) {
 				r.Fail(rB, construct+"/tsum-carried", where, "rkLow does not use a loop-carried running sum: "+clip(ts.String(), 200))
 			}
 		}
+		// the key whose sub-problems are derived comes from the table one rank up: A[KK]
+		if ra := FindFn(t.keyN1, "range"); len(ra) == 1 {
+			if ia := ra[0].Args[0].SingleAtom(); ia != nil && ia.Name == "idx" && ia.Args[0].Equal(ASl) {
+				b.EqRF(rB, construct+"/source-table", where, ia.Args[1], t.mapIdx.Add(S.Int(1)), "the keys gone through are those of the table one rank above the one accessed with the derived key")
+			} else {
+				r.Fail(rB, construct+"/source-table", where, "the keys gone through do not come from a table of A")
+			}
+		}
+		// every rank from the second up to the last is gone through, in either direction:
+		// kh = KK-1 (the number of ranks the sub-problem covers) runs over 2 … len(t)-1
+		kh := t.mapIdx
+		b.FullScan("C-scan coverage", construct+"/every-rank", where, fc, kh.Sub(S.Int(2)), e.MustParse("len(t)-2"))
+		// the running sum used for rkLow is Σ t[0:kh] — by induction over the pass: its value in
+		// the first iteration, and its change from one iteration to the next
+		if lo != nil && lo.Name == "ite" {
+			ts := t.keyN1.Sub(lo.Args[2])
+			khPhis := fc.loopPhis(kh)
+			if len(khPhis) != 1 || khPhis[0].SingleAtom() == nil {
+				r.Fail(rB, construct+"/tsum", where, "the rank counter of the pass is not one loop counter")
+			} else {
+				kp := khPhis[0]
+				ki, kn := recurrenceOrNil(fc, kp)
+				sub0, sub1 := map[AtomID]*RF{}, map[AtomID]*RF{}
+				okRec := ki != nil
+				if okRec {
+					sub0[kp.SingleAtom().ID], sub1[kp.SingleAtom().ID] = ki, kn
+				}
+				for _, ph := range fc.loopPhis(ts) {
+					if ph.Equal(kp) || ph.SingleAtom() == nil {
+						continue
+					}
+					pi, pn := recurrenceOrNil(fc, ph)
+					if pi == nil {
+						okRec = false
+						continue
+					}
+					sub0[ph.SingleAtom().ID], sub1[ph.SingleAtom().ID] = pi, pn
+				}
+				if !okRec {
+					r.Fail(rB, construct+"/tsum", where, "the running sum or the rank counter has no recurrence")
+				} else {
+					e.Set("kh", kh, nil)
+					first, khFirst := ts.Subst(sub0), kh.Subst(sub0)
+					next, khNext := ts.Subst(sub1), kh.Subst(sub1)
+					e.Set("kh0", khFirst, nil)
+					switch {
+					case khNext.Equal(kh.Sub(S.Int(1))):
+						b.EqRF(rB, construct+"/tsum/first", where, first, e.MustParse("sumint(t)-t[len(t)-1]"), "in the first iteration (kh = len(t)-1) the running sum is Σt − t[len(t)-1] = Σ t[0:kh]")
+						b.EqRF(rB, construct+"/tsum/step", where, next, ts.Sub(e.MustParse("t[kh-1]")), "going down one rank removes t[kh-1]: Σ t[0:kh-1] = Σ t[0:kh] − t[kh-1]")
+						b.EqRF(rB, construct+"/tsum/first-rank", where, khFirst, e.MustParse("len(t)-1"), "the pass starts at the last rank")
+					case khNext.Equal(kh.Add(S.Int(1))):
+						b.EqRF(rB, construct+"/tsum/first", where, first, e.MustParse("t[0]+t[1]"), "in the first iteration (kh = 2) the running sum is t[0]+t[1] = Σ t[0:kh]")
+						b.EqRF(rB, construct+"/tsum/step", where, next, ts.Add(e.MustParse("t[kh]")), "going up one rank adds t[kh]: Σ t[0:kh+1] = Σ t[0:kh] + t[kh]")
+						b.EqRF(rB, construct+"/tsum/first-rank", where, khFirst, S.Int(2), "the pass starts at the second rank")
+					default:
+						r.Fail(rB, construct+"/tsum", where, "the rank counter does not move by one per iteration")
+					}
+				}
+			}
+		}
 		ph := X.phiOf[t.rk.SingleAtom().ID]
 		if ifi, ok := ph.Block().Instrs[len(ph.Block().Instrs)-1].(*ssa.If); ok {
 			b.Eq(rB, construct+"/rk-high", where, fc.Val(ifi.Cond), e, "rk<=minint(kn1, t[KK-1])")
@@ -158,6 +219,17 @@ func propC02umemo(a *Analysis, r *Registry, b *B) {
 				if c, isC := fc.Val(v.Value).IsConst(); isC && c.Sign() == 0 {
 					if kat := fc.Val(v.Key).SingleAtom(); kat != nil && kat.Name == "mk:ukey" && len(FindFn(kat.Args[0], "fld:ukey.n1")) == 1 {
 						top = analyse(name+"/top-down", a.W.InstrPos(v), fc.Val(v.Map), fc.Val(v.Key))
+						// a derived key is recorded exactly when its twoU' is attainable for n1' over
+						// the first kh ranks (a key dropped at the boundary reads as 0 later)
+						if top != nil {
+							e := X.EnvFor(fn, "twoU", "n1", "t")
+							e.Set("a", aSl, nil)
+							e.Set("n1p", top.n1p, nil)
+							e.Set("twoUp", top.twoUp, nil)
+							e.Set("kh", top.mapIdx, nil)
+							when := fc.ReachCondFrom(loopBodyEntry(fc, v.Block()), v.Block())
+							b.Eq(rB, name+"/top-down/recorded-when", a.W.InstrPos(v), when, e, "twoUmin(n1p, slice(t, _, kh, _), a)<=twoUp && twoUp<=twoUmax(n1p, slice(t, _, kh, _), a)")
+						}
 					}
 					return
 				}
